@@ -74,8 +74,8 @@ DOMAIN_RULE = {
     "asr": "every forest over the alphabet (no row ends with end-set/endif/end-policy: block terminators, not "
            "rows; words separated by single blanks)",
     "juniper": "rows contain none of '{', '}', ';', '#'; a comment row is `/* {json} */` naming its next sibling, "
-               "is not at top level (Junos prints annotations inside a block, indented), has a next sibling that "
-               "is not itself a comment, and has no children",
+               "(the empty row when it is the last statement of its block), is not at top level (Junos prints "
+               "annotations inside a block, indented) and has no children",
     "nokia": "rows contain none of '{', '}', ';', '#'; the word 'configure' is not a top-level row (there it is "
              "the wrapper that split removes by design)",
     "routeros": "a row has children iff it is a section word (ip, address, user); every top-level row is a "
@@ -108,7 +108,7 @@ def in_domain(family, forest) -> bool:
     if family == "juniper":
         for r, c, parent, level, i, sibs in _walk(forest):
             if r == JCOMMENT:
-                if c or level == 1 or i == len(sibs) - 1:
+                if c or level == 1:
                     return False
         return True
     if family == "nokia":
@@ -135,7 +135,7 @@ def materialise(family, forest):
     out = []
     for i, (r, c) in enumerate(forest):
         if r == JCOMMENT:
-            nxt = forest[i + 1][0]
+            nxt = forest[i + 1][0] if i + 1 < len(forest) else ""     # last in its block: names nothing (a '}' follows)
             nxt = " ".join(w.strip("\"'") for w in nxt.split(" "))     # Junos annotates the statement name
             r = "/* %s */" % json.dumps({"row": nxt, "comment": JCOMMENT_TEXT})
         out.append([r, materialise(family, c)])
